@@ -1,27 +1,27 @@
 \* generated by mkcfg.sh
-SPECIFICATION Spec
+SPECIFICATION GenSpec
 CONSTANTS
   Aux <- MCAux
   NodeKinds <- MCNodeKinds
   CallSet <- MCCallSet
   Twin <- MCTwin
-  N = 3
+  N = 2
   MaxCalls = 1
   SrcEnc = "none"
   DstEnc = "none"
-  EmptyArrayNil = TRUE
-  NilEntryPanics = TRUE
-  KeyByAsked = TRUE
+  EmptyArrayNil = FALSE
+  NilEntryPanics = FALSE
+  KeyByAsked = FALSE
   RecordAfter = FALSE
   DropParms = FALSE
   VerbatimAlways = FALSE
   StepBound = 400
   ScalarAtoms = {"i:7"}
-  MaxSlots = 2
-  WithDict = TRUE
+  MaxSlots = 1
+  WithDict = FALSE
   WithNest = FALSE
   Nest2 = FALSE
-  WithStream = FALSE
+  WithStream = TRUE
   StreamLayouts = {"none"}
   WithDangling = FALSE
   WithNullObj = FALSE
@@ -32,6 +32,6 @@ CONSTANTS
   PlainIdentity = FALSE
   KeyByNumber = FALSE
   CryptProbeDirectOnly = FALSE
-  ParmRefLayouts = {}
+  ParmRefLayouts = {"dict","array","inddict","indarray"}
   InlinedAsIs = FALSE
 INVARIANTS Once Repeat Terminates NoPanic ErrorsOnlyUnsupported Shape Sharing IsoInv
